@@ -1,7 +1,793 @@
-//! C10 — not implemented yet.
-use vmon::report::Args;
+//! C10 — external manifest store protocol: versions unique, durable, portable.
+//!
+//! Two legs over `ExternalManifestCommitHandler` + a linearizable mock `ExternalManifestStore`
+//! whose calls are gated and faultable like storage calls:
+//!
+//! * E-CRASH leg (fault enumeration): one writer, one commit; the commit is re-run from the
+//!   restored pre-state once per fault point: every mutating storage call (this covers the three
+//!   object-store steps of the protocol: stage manifest, copy to final, delete staging) and every
+//!   external-store write (put_if_not_exists, put_if_exists) × {fail-before, lost-reply} ×
+//!   {the writer dies with the call, the writer survives and runs its error handling}.
+//! * E-CONC leg: two writers + a reader race under the gate scheduler with faults drawn from the
+//!   same menu (+ one stale `get_latest_version`).
+//!
+//! After every run the same quiescence oracle is applied: two fresh readers using the external
+//! store (reader-side repair) and a *portable* reader that knows nothing about the external store.
 
-pub fn run(_args: &Args) -> i32 {
-    eprintln!("HARNESS-ERROR C10 not implemented");
-    2
+use serde_json::json;
+use std::collections::{BTreeMap, BTreeSet};
+use std::sync::atomic::{AtomicU64, Ordering};
+use std::sync::Mutex;
+use vmon::prng::{fnv, Rng};
+use vmon::report::{Args, Report};
+use vmon::store::{classify_path, Fault, FaultPlan, Kind};
+use vmon::table::{ColTy, IdAlloc, TableSpec};
+
+use crate::c02::{self, ClientResult, ReaderSample, Verdict};
+use crate::common::*;
+use crate::ops::{self, Op};
+
+const URI: &str = "memory://t";
+const BASE: &str = "t";
+pub const SIG_DANGLING: &str = "lost-reply-put_if_not_exists-dangling-staging";
+
+#[derive(Default)]
+pub struct QStats {
+    pub versions_checked: u64,
+    pub portable_versions_checked: u64,
+    pub repaired_by_reader: u64,
+}
+
+/// External-store entries that point at a staging object which no longer exists.
+/// Returns (version, path, narrow signature).
+async fn dangling_entries(env: &Env) -> Vec<(u64, String, String)> {
+    let paths: BTreeSet<String> = env.world.list_paths().await.into_iter().collect();
+    let map = env.ext.snapshot();
+    let xev = env.ext.events();
+    let ev = env.world.events();
+    let mut out = vec![];
+    for ((b, v), p) in &map {
+        if b != BASE || paths.contains(p) {
+            continue;
+        }
+        if !matches!(vers_file(BASE, p), Some(VersFile::Staging(_))) {
+            // a final path that does not exist is a different (worse) class
+            out.push((*v, p.clone(), "external-entry-points-at-missing-final-manifest".to_string()));
+            continue;
+        }
+        // narrow class: this entry was written by a put_if_not_exists whose reply was lost and the
+        // same writer then deleted the staging object in its error handling
+        let lost = xev.iter().find(|x| {
+            x.op == ExtOp::PutIfNotExists
+                && x.version == *v
+                && x.path == *p
+                && x.applied
+                && !x.ok
+                && x.fault == Some(Fault::LostReply)
+        });
+        let sig = match lost {
+            Some(x) => {
+                let deleted_by_writer = ev
+                    .iter()
+                    .any(|e| e.kind == Kind::Delete && e.applied && e.path == *p && e.actor == x.actor && e.t >= x.t);
+                if deleted_by_writer {
+                    SIG_DANGLING.to_string()
+                } else {
+                    "dangling-staging-after-lost-reply-not-deleted-by-writer".to_string()
+                }
+            }
+            None => "dangling-staging-entry-other".to_string(),
+        };
+        out.push((*v, p.clone(), sig));
+    }
+    out
+}
+
+struct ReaderView {
+    latest: u64,
+    /// version -> (content digest, manifest content hash)
+    per_version: BTreeMap<u64, (u64, Option<u64>)>,
+}
+
+async fn reader_pass(env: &Env, p: &Proc, versions: &BTreeSet<u64>) -> Result<ReaderView, String> {
+    let ds = match guarded(p.actor.open(URI), 60).await {
+        Ok(Ok(ds)) => ds,
+        Ok(Err(e)) => return Err(format!("open latest: {e}")),
+        Err(g) => return Err(format!("open latest: {g:?}")),
+    };
+    let latest = ds.manifest().version;
+    let mut per_version = BTreeMap::new();
+    for v in versions {
+        let dv = match guarded(p.actor.open_version(URI, *v), 60).await {
+            Ok(Ok(d)) => d,
+            Ok(Err(e)) => return Err(format!("open version {v}: {e}")),
+            Err(g) => return Err(format!("open version {v}: {g:?}")),
+        };
+        if dv.manifest().version != *v {
+            return Err(format!("open version {v} returned manifest version {}", dv.manifest().version));
+        }
+        let mh = env.world.hash_of(dv.manifest_location().path.as_ref()).await;
+        let o = version_obs(&dv).await.map_err(|e| format!("scan v{v}: {e}"))?;
+        per_version.insert(*v, (o.digest(), mh));
+    }
+    Ok(ReaderView { latest, per_version })
+}
+
+/// The C10 oracle at quiescence.
+pub async fn quiescence_check(
+    env: &Env,
+    clients: &[ClientResult],
+    samples: &[ReaderSample],
+    stats: &mut QStats,
+) -> Vec<Verdict> {
+    let mut out = vec![];
+    // 0. dangling pointers first: everything else is a consequence of them
+    let dang = dangling_entries(env).await;
+    if !dang.is_empty() {
+        for (v, p, sig) in dang {
+            out.push(Verdict {
+                sig,
+                what: format!(
+                    "external store maps version {v} to {} but that object does not exist: the version is unresolvable",
+                    classify_path(&p)
+                ),
+            });
+        }
+        return out;
+    }
+    // versions committed according to the protocol (entry in the external store) or finalised
+    let committed: BTreeSet<u64> = env
+        .ext
+        .snapshot()
+        .keys()
+        .filter(|(b, _)| b == BASE)
+        .map(|(_, v)| *v)
+        .collect();
+    let staged_before: usize = env
+        .ext
+        .snapshot()
+        .values()
+        .filter(|p| matches!(vers_file(BASE, p), Some(VersFile::Staging(_))))
+        .count();
+    stats.repaired_by_reader += staged_before as u64;
+    let mut raw_final: BTreeSet<u64> = BTreeSet::new();
+    for p in env.world.list_paths().await {
+        if let Some(v) = final_manifest_version(BASE, &p) {
+            raw_final.insert(v);
+        }
+    }
+    let all: BTreeSet<u64> = committed.union(&raw_final).copied().collect();
+    if all.is_empty() {
+        // no version was ever committed (e.g. a failed create): there is no table to check
+        return out;
+    }
+    // 1. two independent readers that use the external store (the first one repairs)
+    let r1 = match reader_pass(env, &env.proc(80), &all).await {
+        Ok(r) => r,
+        Err(e) => {
+            out.push(Verdict {
+                sig: "committed-version-unresolvable".into(),
+                what: format!("reader with the external store, first pass: {e}"),
+            });
+            return out;
+        }
+    };
+    let r2 = match reader_pass(env, &env.proc(81), &all).await {
+        Ok(r) => r,
+        Err(e) => {
+            out.push(Verdict {
+                sig: "committed-version-unresolvable".into(),
+                what: format!("reader with the external store, second pass: {e}"),
+            });
+            return out;
+        }
+    };
+    stats.versions_checked += all.len() as u64;
+    if r1.latest != r2.latest {
+        out.push(Verdict {
+            sig: "latest-differs-between-readers-at-quiescence".into(),
+            what: format!("{} vs {}", r1.latest, r2.latest),
+        });
+    }
+    if let Some(max) = all.iter().next_back() {
+        if r1.latest != *max {
+            out.push(Verdict {
+                sig: "latest-is-not-the-highest-committed-version".into(),
+                what: format!("latest {} but highest committed/finalised version is {max}", r1.latest),
+            });
+        }
+    }
+    for v in &all {
+        if r1.per_version.get(v) != r2.per_version.get(v) {
+            out.push(Verdict {
+                sig: "version-content-differs-between-readers".into(),
+                what: format!("v{v}: {:?} vs {:?}", r1.per_version.get(v), r2.per_version.get(v)),
+            });
+        }
+    }
+    // 2. after the reader pass every version is finalised with the committed content
+    let map = env.ext.snapshot();
+    let ev = env.world.events();
+    let xev = env.ext.events();
+    let paths: BTreeSet<String> = env.world.list_paths().await.into_iter().collect();
+    for ((b, v), p) in &map {
+        if b != BASE {
+            continue;
+        }
+        if final_manifest_version(BASE, p) != Some(*v) {
+            out.push(Verdict {
+                sig: "not-finalised-after-reader-pass".into(),
+                what: format!("external entry of v{v} still points at {}", classify_path(p)),
+            });
+            continue;
+        }
+        if !paths.contains(p) {
+            out.push(Verdict {
+                sig: "external-entry-points-at-missing-final-manifest".into(),
+                what: format!("v{v} -> {p}"),
+            });
+            continue;
+        }
+        // committed content = the staged object that won put_if_not_exists
+        if let Some(w) = xev
+            .iter()
+            .find(|x| x.op == ExtOp::PutIfNotExists && x.applied && x.version == *v && x.base == BASE)
+        {
+            let staged = ev
+                .iter()
+                .filter(|e| e.applied && e.kind.is_mutating() && e.kind != Kind::Delete && e.dest() == w.path)
+                .filter_map(|e| e.hash)
+                .next_back();
+            let fin = env.world.hash_of(p).await;
+            if let (Some(s), Some(f)) = (staged, fin) {
+                if s != f {
+                    out.push(Verdict {
+                        sig: "final-manifest-differs-from-committed-content".into(),
+                        what: format!("v{v}: staged winner {s:016x}, final {f:016x}"),
+                    });
+                }
+            }
+        }
+    }
+    // 3. portable reader (no external store): same latest, same content for every finalised version
+    let mut raw_final: BTreeSet<u64> = BTreeSet::new();
+    for p in &paths {
+        if let Some(v) = final_manifest_version(BASE, p) {
+            raw_final.insert(v);
+        }
+    }
+    for v in &all {
+        if !raw_final.contains(v) {
+            out.push(Verdict {
+                sig: "final-manifest-missing-after-reader-pass".into(),
+                what: format!("v{v} is committed but _versions/{v}.manifest does not exist after a reader pass"),
+            });
+        }
+    }
+    match reader_pass(env, &env.proc_with(82, HandlerKind::CondPut), &raw_final).await {
+        Err(e) => out.push(Verdict {
+            sig: "portable-reader-cannot-read".into(),
+            what: e,
+        }),
+        Ok(pr) => {
+            stats.portable_versions_checked += raw_final.len() as u64;
+            if pr.latest != r1.latest {
+                out.push(Verdict {
+                    sig: "portable-reader-sees-different-latest".into(),
+                    what: format!("portable {} vs external-store reader {}", pr.latest, r1.latest),
+                });
+            }
+            for v in &raw_final {
+                if pr.per_version.get(v) != r1.per_version.get(v) {
+                    out.push(Verdict {
+                        sig: "portable-reader-sees-different-content".into(),
+                        what: format!("v{v}: portable {:?} vs external-store reader {:?}", pr.per_version.get(v), r1.per_version.get(v)),
+                    });
+                }
+            }
+        }
+    }
+    // 4. a commit that returned Ok stays resolvable with the same content
+    for c in clients {
+        if let Ok(v) = &c.result {
+            match r1.per_version.get(v) {
+                None => out.push(Verdict {
+                    sig: "ok-commit-lost".into(),
+                    what: format!("a{} got Ok for v{v}, which no reader can resolve", c.actor),
+                }),
+                Some((d, _)) => {
+                    if let Some(cd) = c.digest {
+                        if cd != *d {
+                            out.push(Verdict {
+                                sig: "ok-commit-content-changed".into(),
+                                what: format!("a{} got Ok for v{v} with digest {cd:016x}; readers see {d:016x}", c.actor),
+                            });
+                        }
+                    }
+                }
+            }
+        }
+    }
+    // 5. what readers saw during the run equals what is there at quiescence
+    for s in samples {
+        if let Some((d, mh)) = r1.per_version.get(&s.version) {
+            if *d != s.ids_digest || (s.manifest_hash.is_some() && mh.is_some() && s.manifest_hash != *mh) {
+                out.push(Verdict {
+                    sig: "version-content-changed-between-observations".into(),
+                    what: format!("v{}: digest/hash seen during the run differs from quiescence", s.version),
+                });
+            }
+        } else {
+            out.push(Verdict {
+                sig: "version-seen-by-reader-later-unresolvable".into(),
+                what: format!("v{} was opened by the reader during the run", s.version),
+            });
+        }
+    }
+    // 6. slot uniqueness / immutability over the complete logs (C02 monitor)
+    let mut fh = BTreeMap::new();
+    for p in &paths {
+        if let Some(v) = final_manifest_version(BASE, p) {
+            if let Some(h) = env.world.hash_of(p).await {
+                fh.insert(v, h);
+            }
+        }
+    }
+    // client Ok bookkeeping of the C02 monitor needs the whole log (setup included), which we have
+    let (v2, _) = c02::monitor(HandlerKind::External, &ev, &xev, clients, &fh);
+    out.extend(v2);
+    out
+}
+
+// -------------------------------------------------------------------------------------------
+// E-CRASH leg
+// -------------------------------------------------------------------------------------------
+
+#[derive(Clone, Debug)]
+enum FaultPoint {
+    Store { k: u64, fault: Fault, crash: bool },
+    Ext { op: ExtOp, nth: u32, fault: Fault, crash: bool },
+}
+
+impl FaultPoint {
+    fn name(&self) -> String {
+        match self {
+            FaultPoint::Store { fault, crash, .. } | FaultPoint::Ext { fault, crash, .. } => format!(
+                "{}/{}",
+                match fault {
+                    Fault::FailBefore => "fail_before",
+                    Fault::LostReply => "lost_reply",
+                },
+                if *crash { "crash" } else { "transient" }
+            ),
+        }
+    }
+}
+
+/// protocol step of a mutating storage call of the dry run
+fn step_of(label_path: &str, kind: Kind, to: Option<&str>) -> &'static str {
+    let dest = to.unwrap_or(label_path);
+    match (kind, vers_file(BASE, label_path), vers_file(BASE, dest)) {
+        (Kind::Delete, Some(VersFile::Staging(_)), _) => "5-delete-staging",
+        (Kind::Copy, _, Some(VersFile::Final(_))) => "3-copy-to-final",
+        (_, Some(VersFile::Staging(_)), _) => "1-stage-manifest",
+        _ => "0-data-or-transaction-file",
+    }
+}
+
+async fn crash_scenario(report: &Report, seed: u64, idx: u64, matrix: &Mutex<BTreeMap<String, u64>>) {
+    let mut rng = Rng::for_case(seed, idx ^ 0xC10);
+    let env = Env::new(HandlerKind::External);
+    let mut ids = IdAlloc::new(0);
+    let spec = TableSpec::simple(&[("v", ColTy::I32, true), ("s", ColTy::Utf8, true)]);
+    let w = env.proc(1);
+    let create_final = rng.chance(1, 8);
+    let mut history = vec![];
+    if !create_final {
+        let n0 = rng.urange(6, 30);
+        let create = Op::Create {
+            batch: spec.batch(&mut rng, &ids.take(n0)),
+            v2: rng.chance(1, 3),
+            stable_row_ids: rng.chance(1, 3),
+            max_rows_per_file: *rng.pick(&[7usize, 1000]),
+        };
+        if let Err(e) = ops::apply(&create, &w.actor, URI).await {
+            report.harness_error(&format!("C10 setup create: {e}"));
+            return;
+        }
+        history.push(create.describe());
+        for _ in 0..rng.below(3) {
+            let n = rng.urange(1, 6);
+            let op = Op::Append {
+                batch: spec.batch(&mut rng, &ids.take(n)),
+                max_rows_per_file: 1000,
+            };
+            if let Err(e) = ops::apply(&op, &env.proc(1).actor, URI).await {
+                report.harness_error(&format!("C10 setup append: {e}"));
+                return;
+            }
+            history.push(op.describe());
+        }
+    }
+    let final_op = if create_final {
+        Op::Create {
+            batch: spec.batch(&mut rng, &ids.take(8)),
+            v2: rng.chance(1, 3),
+            stable_row_ids: false,
+            max_rows_per_file: 1000,
+        }
+    } else {
+        match rng.below(4) {
+            0 => Op::Delete { pred: format!("id % 3 = {}", rng.below(3)) },
+            1 => Op::UpdateConfig { key: "k".into(), value: Some(format!("{}", rng.below(100))) },
+            2 => Op::Update { pred: Some("id % 2 = 0".into()), col: "v".into(), expr: "7".into() },
+            _ => {
+                let n = rng.urange(1, 6);
+                Op::Append { batch: spec.batch(&mut rng, &ids.take(n)), max_rows_per_file: 1000 }
+            }
+        }
+    };
+    let snap = env.snapshot().await;
+    // dry run: count the calls, label the steps
+    let env_d = Env::restore(HandlerKind::External, &snap).await;
+    let wd = env_d.proc(1);
+    wd.actor.store.reset_counters();
+    match guarded(ops::apply(&final_op, &wd.actor, URI), 60).await {
+        Ok(Ok(())) => {}
+        Ok(Err(e)) => {
+            report.rejected();
+            report.count("dry_run_rejected", 1);
+            let _ = e;
+            return;
+        }
+        Err(g) => {
+            report.inconclusive(&format!("C10 case {idx}: dry run {g:?}"));
+            return;
+        }
+    }
+    let m = wd.actor.store.mutating_calls();
+    let dry = env_d.world.events();
+    let extc = wd.ext.as_ref().unwrap();
+    let mut points: Vec<(FaultPoint, String)> = vec![];
+    for k in 1..=m {
+        let step = dry
+            .iter()
+            .find(|e| e.actor == 1 && e.mut_index == Some(k))
+            .map(|e| step_of(&e.path, e.kind, e.to.as_deref()))
+            .unwrap_or("?");
+        for fault in [Fault::FailBefore, Fault::LostReply] {
+            for crash in [true, false] {
+                points.push((FaultPoint::Store { k, fault, crash }, step.to_string()));
+            }
+        }
+    }
+    for (op, step) in [(ExtOp::PutIfNotExists, "2-put_if_not_exists"), (ExtOp::PutIfExists, "4-put_if_exists")] {
+        for nth in 1..=extc.calls(op) {
+            for fault in [Fault::FailBefore, Fault::LostReply] {
+                for crash in [true, false] {
+                    points.push((FaultPoint::Ext { op, nth, fault, crash }, step.to_string()));
+                }
+            }
+        }
+    }
+    {
+        let mut stats = QStats::default();
+        let v = quiescence_check(&env_d, &[], &[], &mut stats).await;
+        for x in v {
+            report.violation(
+                &format!("{}:fault-free", x.sig),
+                &x.what,
+                json!({"seed": seed, "case": idx, "leg": "crash", "history": history, "final_op": final_op.describe()}),
+            );
+        }
+    }
+    report.count("crash_leg_scenarios", 1);
+    let mut outcomes = vec![];
+    let mut complete = true;
+    for (fp, step) in &points {
+        if !report.time_left() {
+            complete = false;
+            break;
+        }
+        let env_c = Env::restore(HandlerKind::External, &snap).await;
+        let wc = env_c.proc(1);
+        wc.actor.store.reset_counters();
+        match fp {
+            FaultPoint::Store { k, fault, crash } => {
+                let mut plan = FaultPlan::default();
+                if *crash {
+                    plan.crash_at = Some((*k, *fault));
+                } else {
+                    plan.transient.insert(*k, *fault);
+                }
+                wc.actor.store.set_plan(plan);
+            }
+            FaultPoint::Ext { op, nth, fault, crash } => wc.ext.as_ref().unwrap().set_faults(vec![ExtFault {
+                op: *op,
+                nth: *nth,
+                fault: *fault,
+                crash: *crash,
+            }]),
+        }
+        let res = guarded(ops::apply(&final_op, &wc.actor, URI), 20).await;
+        let (client, res_txt) = match res {
+            Err(GuardFail::Timeout) => {
+                // Lance's commit backoff is proportional to the duration of the first attempt, so a
+                // retry storm can take long on a loaded machine. Dropping the writer here is a crash
+                // of the writer at an arbitrary later moment, which is inside the fault model: the
+                // oracle below still applies.
+                report.count("writers_cut_off_after_20s", 1);
+                (None, "cut off after 20 s (treated as a later crash of the writer)".to_string())
+            }
+            Err(GuardFail::Panic(msg)) => {
+                report.count("panics_after_injected_fault", 1);
+                (None, format!("panic {msg}"))
+            }
+            Ok(Ok(())) => (Some(()), "Ok".to_string()),
+            Ok(Err(e)) => (None, e.to_string().chars().take(140).collect()),
+        };
+        // the single writer of this leg commits exactly the next version
+        let pre_n = snap
+            .ext
+            .keys()
+            .filter(|(b, _)| b == BASE)
+            .map(|(_, v)| *v)
+            .max()
+            .unwrap_or(0);
+        let clients: Vec<ClientResult> = client
+            .map(|_| ClientResult {
+                actor: 1,
+                op: final_op.describe(),
+                result: Ok(pre_n + 1),
+                digest: None,
+            })
+            .into_iter()
+            .collect();
+        let mut stats = QStats::default();
+        let verdicts = quiescence_check(&env_c, &clients, &[], &mut stats).await;
+        report.count("versions_checked", stats.versions_checked);
+        report.count("portable_versions_checked", stats.portable_versions_checked);
+        report.count("entries_repaired_by_reader", stats.repaired_by_reader);
+        report.count("events", env_c.world.log_len() as u64);
+        let class = format!("{step}/{}", fp.name());
+        *matrix.lock().unwrap().entry(class.clone()).or_insert(0) += 1;
+        for v in &verdicts {
+            let sig = if v.sig == SIG_DANGLING { v.sig.clone() } else { format!("{}:{class}", v.sig) };
+            report.violation(
+                &sig,
+                &v.what,
+                json!({
+                    "seed": seed, "case": idx, "leg": "crash", "history": history, "final_op": final_op.describe(),
+                    "fault_point": format!("{fp:?}"), "protocol_step": step, "writer_result": res_txt,
+                    "writer_mutations": env_c.world.events().iter().filter(|e| e.actor == 1 && e.kind.is_mutating()).map(|e| e.brief()).collect::<Vec<_>>(),
+                    "ext_log": env_c.ext.events().iter().map(|e| e.brief()).collect::<Vec<_>>(),
+                    "ext_map": env_c.ext.snapshot().iter().map(|((_, v), p)| format!("{v} -> {}", classify_path(p))).collect::<Vec<_>>(),
+                    "replay": format!("e_crash C10 --seed {seed} --crashcase {idx}"),
+                }),
+            );
+        }
+        outcomes.push(format!("{class} -> writer {res_txt}; oracle {}", if verdicts.is_empty() { "held".to_string() } else { verdicts[0].sig.clone() }));
+        // non-trivial: the fault hit one of the five protocol steps
+        let nontrivial = !step.starts_with('0');
+        report.case(if nontrivial {
+            Some(fnv(format!("crash|{class}|{}|{}", final_op.kind(), history.len()).as_bytes()))
+        } else {
+            None
+        });
+    }
+    if complete {
+        report.count("crash_leg_scenarios_fully_enumerated", 1);
+    }
+    if complete && report.want_sample() && (idx % 5 == 0 || idx < 2) {
+        report.sample(json!({
+            "leg": "crash", "case": idx, "history": history, "final_op": final_op.describe(),
+            "mutating_calls_M": m, "fault_points": points.len(), "outcomes": outcomes,
+        }));
+    }
+}
+
+// -------------------------------------------------------------------------------------------
+// selftest
+// -------------------------------------------------------------------------------------------
+
+fn selftest(args: &Args) -> i32 {
+    let rt = tokio::runtime::Builder::new_current_thread().enable_all().build().unwrap();
+    let ok = rt.block_on(async {
+        let mut fails: Vec<String> = vec![];
+        let spec = TableSpec::simple(&[("v", ColTy::I32, true)]);
+        let mut rng = Rng::new(args.seed);
+        let mut ids = IdAlloc::new(0);
+        let mk = || async { Env::new(HandlerKind::External) };
+        // clean table: oracle silent
+        let env = mk().await;
+        let w = env.proc(1);
+        let create = Op::Create { batch: spec.batch(&mut rng, &ids.take(10)), v2: false, stable_row_ids: false, max_rows_per_file: 1000 };
+        ops::apply(&create, &w.actor, URI).await.expect("create");
+        let app = Op::Append { batch: spec.batch(&mut rng, &ids.take(3)), max_rows_per_file: 1000 };
+        ops::apply(&app, &w.actor, URI).await.expect("append");
+        let mut st = QStats::default();
+        let v = quiescence_check(&env, &[], &[], &mut st).await;
+        if !v.is_empty() {
+            fails.push(format!("clean table flagged: {v:?}"));
+        }
+        // corruption 1: final manifest of v2 replaced by other bytes (portable reader / hash check)
+        {
+            use object_store::ObjectStore;
+            let other = env.world.read("t/_versions/1.manifest").await.unwrap();
+            env.world
+                .backing
+                .put(&object_store::path::Path::from("t/_versions/2.manifest"), other.into())
+                .await
+                .unwrap();
+            let v = quiescence_check(&env, &[], &[], &mut st).await;
+            if v.is_empty() {
+                fails.push("replaced final manifest not flagged".into());
+            }
+        }
+        // corruption 2: external entry points at a staging object that does not exist
+        let env = mk().await;
+        let w = env.proc(1);
+        ops::apply(&create, &w.actor, URI).await.expect("create");
+        env.ext.map.lock().unwrap().insert((BASE.to_string(), 2), "t/_versions/2.manifest-00000000-0000-0000-0000-000000000000".into());
+        let v = quiescence_check(&env, &[], &[], &mut st).await;
+        if !v.iter().any(|x| x.sig.starts_with("dangling")) {
+            fails.push(format!("dangling entry not flagged: {v:?}"));
+        }
+        // corruption 3: an Ok commit that does not exist
+        let env = mk().await;
+        let w = env.proc(1);
+        ops::apply(&create, &w.actor, URI).await.expect("create");
+        let lost = vec![ClientResult { actor: 1, op: "x".into(), result: Ok(2), digest: None }];
+        let v = quiescence_check(&env, &lost, &[], &mut st).await;
+        if !v.iter().any(|x| x.sig == "ok-commit-lost") {
+            fails.push(format!("lost Ok commit not flagged: {v:?}"));
+        }
+        // corruption 4: final manifest removed although the external store says finalised
+        let env = mk().await;
+        let w = env.proc(1);
+        ops::apply(&create, &w.actor, URI).await.expect("create");
+        ops::apply(&app, &w.actor, URI).await.expect("append");
+        {
+            use object_store::ObjectStore;
+            env.world.backing.delete(&object_store::path::Path::from("t/_versions/2.manifest")).await.unwrap();
+        }
+        let v = quiescence_check(&env, &[], &[], &mut st).await;
+        if v.is_empty() {
+            fails.push("missing final manifest not flagged".into());
+        }
+        // corruption 5: a reader sample that disagrees
+        let env = mk().await;
+        let w = env.proc(1);
+        ops::apply(&create, &w.actor, URI).await.expect("create");
+        let bad = vec![ReaderSample { version: 1, ids_digest: 1, manifest_hash: None }];
+        let v = quiescence_check(&env, &[], &bad, &mut st).await;
+        if !v.iter().any(|x| x.sig == "version-content-changed-between-observations") {
+            fails.push("disagreeing reader sample not flagged".into());
+        }
+        if fails.is_empty() {
+            println!("SELFTEST C10 ok: clean table accepted, 5/5 corrupted states flagged");
+            true
+        } else {
+            println!("SELFTEST C10 FAILED: {fails:?}");
+            false
+        }
+    });
+    if ok {
+        0
+    } else {
+        2
+    }
+}
+
+pub fn run(args: &Args) -> i32 {
+    if args.extra.contains_key("selftest") {
+        return selftest(args);
+    }
+    let report = Report::new(
+        args,
+        "fault_enumeration",
+        "Leg 1 (enumeration): a single commit through ExternalManifestCommitHandler is re-run from the restored \
+         pre-state once per fault point: every mutating storage call and every external-store write x {fail-before, \
+         lost-reply} x {writer dies, writer survives}; non-trivial iff the faulted call is one of the 5 protocol steps \
+         (stage, put_if_not_exists, copy, put_if_exists, delete staging); distinct = (step, fault, variant, op kind, \
+         history length). Leg 2 (schedules): two writers + a reader under the gate scheduler with faults from the same \
+         menu and one optional stale get_latest_version; non-trivial iff both writers issued put_if_not_exists for the \
+         same version; distinct = interleaving hash + fault plan. Same quiescence oracle after every run: two readers \
+         with the external store (repair), one portable reader without it.",
+        (55, 900),
+    )
+    .with_min_nontrivial(20);
+    report.assume("the external manifest store is a linearizable in-process mock (the DynamoDB implementation is out of reach offline); only the trait-level protocol is exercised");
+    report.assume("InMemory object store: copy / put / delete are atomic");
+    let single_race: Option<u64> = args.extra.get("case").and_then(|s| s.parse().ok());
+    let single_crash: Option<u64> = args.extra.get("crashcase").and_then(|s| s.parse().ok());
+    let single = single_race.is_some() || single_crash.is_some();
+    let matrix: Mutex<BTreeMap<String, u64>> = Mutex::new(BTreeMap::new());
+    let next = AtomicU64::new(0);
+    let max_cases: u64 = args.tier.pick(40_000, 2_000_000);
+    let threads = if single { 1 } else { worker_threads() };
+    let race_stats: Mutex<(u64, u64)> = Mutex::new((0, 0));
+    run_threads(threads, |_| {
+        let report = &report;
+        let next = &next;
+        let matrix = &matrix;
+        let race_stats = &race_stats;
+        let seed = args.seed;
+        Box::pin(async move {
+            let lane = || async {
+            loop {
+                let idx = next.fetch_add(1, Ordering::SeqCst);
+                if !single && (idx >= max_cases || !report.time_left()) {
+                    break;
+                }
+                // alternate the legs: even = enumeration scenario, odd = gated race
+                let do_crash = match (single_crash, single_race) {
+                    (Some(_), _) => true,
+                    (_, Some(_)) => false,
+                    _ => idx % 2 == 0,
+                };
+                if do_crash {
+                    crash_scenario(report, seed, single_crash.unwrap_or(idx / 2), matrix).await;
+                } else {
+                    let ridx = single_race.unwrap_or(idx / 2);
+                    match c02::race_cfg(seed, ridx, HandlerKind::External, true, c02::race_secs(report)).await {
+                        Err(e) => report.harness_error(&format!("race {ridx}: {e}")),
+                        Ok(o) => {
+                            if o.watchdog {
+                                report.inconclusive(&format!("race {ridx}: scheduler watchdog fired"));
+                                report.count("watchdog_fired", 1);
+                            }
+                            let env = o.env.as_ref().expect("c10 mode returns env");
+                            let mut stats = QStats::default();
+                            let verdicts = quiescence_check(env, &o.clients, &o.samples, &mut stats).await;
+                            report.count("versions_checked", stats.versions_checked);
+                            report.count("portable_versions_checked", stats.portable_versions_checked);
+                            report.count("entries_repaired_by_reader", stats.repaired_by_reader);
+                            report.count("events", o.events as u64);
+                            report.count("released_calls", o.released as u64);
+                            report.count("nondeterministic_steps", o.nondet);
+                            report.count("races", 1);
+                            report.count("reader_samples", o.samples.len() as u64);
+                            {
+                                let mut g = race_stats.lock().unwrap();
+                                g.0 += 1;
+                                if o.contended > 0 {
+                                    g.1 += 1;
+                                }
+                            }
+                            for v in verdicts.iter() {
+                                let sig = if v.sig == SIG_DANGLING { v.sig.clone() } else { format!("{}:race", v.sig) };
+                                let mut w = o.witness.clone();
+                                w["leg"] = json!("race");
+                                w["replay"] = json!(format!("e_crash C10 --seed {seed} --case {ridx}"));
+                                w["ext_map"] = json!(env.ext.snapshot().iter().map(|((_, v), p)| format!("{v} -> {}", classify_path(p))).collect::<Vec<_>>());
+                                report.violation(&sig, &v.what, w);
+                            }
+                            if o.contended > 0 && report.want_sample() && (ridx % 11 == 0 || ridx < 4) {
+                                let mut s = o.sample.clone();
+                                s["leg"] = json!("race");
+                                s["oracle"] = json!(if verdicts.is_empty() { "held".to_string() } else { verdicts[0].sig.clone() });
+                                report.sample(s);
+                            }
+                            report.case(if o.contended > 0 { Some(o.ihash) } else { None });
+                        }
+                    }
+                }
+                if single {
+                    break;
+                }
+            }
+            };
+            let lanes = if single { 1 } else { 3 };
+            futures::future::join_all((0..lanes).map(|_| lane())).await;
+        })
+    });
+    report.set("crash_leg_runs_by_step_and_fault", json!(matrix.lock().unwrap().clone()));
+    let rs = *race_stats.lock().unwrap();
+    report.set("race_leg", json!({"races": rs.0, "both_writers_reached_put_if_not_exists_for_same_version": rs.1}));
+    report.set(
+        "level_note",
+        json!("fault points of each enumerated commit are complete (crash_leg_scenarios_fully_enumerated); commits and schedules are sampled. Out of reach: the DynamoDB implementation of the store."),
+    );
+    report.finish()
 }
